@@ -26,12 +26,7 @@ def run_units(repo):
     fails, und = [], []
     for name in UNITS:
         try:
-            u = dev.load_unit(name, repo=repo)
-            u.assemble()
-            u.write(suffix='_harmless')
-            u.erasure_check()
-            res = kv.run_verus(u.gen_path, flags=u.verus_flags, rlimit=30)
-            f, n = kv.classify(u, res)
+            u, res, f, n, _ = dev.verify_unit(name, repo=repo, rlimit=30, suffix='_harmless')
             fails += [(name, x['fn'], x['labels'], x['message']) for x in f]
             und += [(name, x[:200]) for x in n]
         except (ExtractError, kv.Undecided) as e:
@@ -45,7 +40,8 @@ def main():
     scratch = tempfile.mkdtemp(prefix='kv_harmless_')
     alarms = 0
     try:
-        subprocess.run(['rsync', '-a', '--exclude', 'target', '--exclude', '.git', '/repo/', scratch + '/'], check=True)
+        # the committed tree (never /repo's working tree, which another harness may have patched)
+        subprocess.run('git -C /repo archive HEAD | tar -x -C %s' % scratch, shell=True, check=True)
         for m in M:
             if want and m['name'] not in want:
                 continue
